@@ -265,9 +265,9 @@ class StaticModel:
             r = tensor_ref.vrh(tensor_ref.full_from_voigt(c6))
             for name, key in zip(VRH_NAMES, ("KV", "KR", "KH", "GV", "GR", "GH")):
                 out[name][i] = r[key]
-            out["v_p"][i] = math.sqrt((r["KH"] + 4.0 * r["GH"] / 3.0) / rho[i]) * KMS_PER_SQRT_GPA_GCM3
-            out["v_s"][i] = math.sqrt(r["GH"] / rho[i]) * KMS_PER_SQRT_GPA_GCM3
-            out["v_phi"][i] = math.sqrt(r["KH"] / rho[i]) * KMS_PER_SQRT_GPA_GCM3
+            for name, m in (("v_p", r["KH"] + 4.0 * r["GH"] / 3.0), ("v_s", r["GH"]), ("v_phi", r["KH"])):
+                # a non-positive modulus (table extrapolated far outside its volumes) has no velocity: NaN = "undefined"
+                out[name][i] = math.sqrt(m / rho[i]) * KMS_PER_SQRT_GPA_GCM3 if m / rho[i] > 0 else float("nan")
         return out
 
     def volume_at(self, p_gpa, lo=None, hi=None):
